@@ -15,7 +15,9 @@ import (
 	"fmt"
 	"os"
 	"path/filepath"
+	"runtime/debug"
 	"sort"
+	"strconv"
 	"strings"
 	"sync"
 	"sync/atomic"
@@ -832,25 +834,51 @@ func drain(s *database.Subscription) (got []snap, closed bool) {
 	}
 }
 
-func (w *world) raw(keys []string) map[string]snap {
-	out := map[string]snap{}
-	for _, k := range keys {
+type rawEnt struct {
+	ok bool
+	s  snap
+}
+
+// raw reads the storage directly (no hooks, no checks), one entry per key.
+func (w *world) raw(keys []string) []rawEnt {
+	out := make([]rawEnt, len(keys))
+	for i, k := range keys {
 		r, err := database.VerifRawGet(w.name, k)
 		if err == nil && r != nil {
-			out[k] = snapOf(r)
+			out[i] = rawEnt{true, snapOf(r)}
 		}
 	}
 	return out
 }
 
-func rawString(keys []string, m map[string]snap) string {
+func rawString(m []rawEnt) string {
 	var sb strings.Builder
-	for _, k := range keys {
-		if s, ok := m[k]; ok {
-			fmt.Fprintf(&sb, "%v;", s)
+	for _, e := range m {
+		if e.ok {
+			sb.WriteString(e.s.String())
+			sb.WriteByte(';')
 		}
 	}
 	return sb.String()
+}
+
+func sameRaw(a, b []rawEnt) bool {
+	for i := range a {
+		if a[i] != b[i] {
+			return false
+		}
+	}
+	return true
+}
+
+func (m *model) rawOf(keys []string) []rawEnt {
+	out := make([]rawEnt, len(keys))
+	for i, k := range keys {
+		if e, ok := m.store[k]; ok {
+			out[i] = rawEnt{true, e.snap(k)}
+		}
+	}
+	return out
 }
 
 // private state of the controller for the canonical key: which of the
@@ -865,12 +893,14 @@ func (w *world) private() string {
 				idx = i
 			}
 		}
-		fmt.Fprintf(&sb, "%d,", idx)
+		sb.WriteString(strconv.Itoa(idx))
+		sb.WriteByte(',')
 	}
 	sb.WriteString("h")
 	for _, h := range database.VerifHooks(w.name) {
 		if x, ok := h.(*hk); ok {
-			fmt.Fprintf(&sb, "%d,", x.id)
+			sb.WriteString(strconv.Itoa(x.id))
+			sb.WriteByte(',')
 		}
 	}
 	return sb.String()
@@ -879,14 +909,25 @@ func (w *world) private() string {
 // ---------- running one history ----------
 
 type runResult struct {
-	key       string // canonical key of the reached state, "" after a violation
-	outcome   string
-	bad       bool
-	nontriv   bool
-	modelOnly *model
+	key     string // canonical key of the reached state, "" after a violation
+	outcome string
+	bad     bool
+	nontriv bool
 }
 
-var allKeys = []string{"a/1", "a/2", "b/1", failKey}
+func keysOf(cfg config) []string {
+	if cfg.Backend == "injected" {
+		return []string{"a/1", "a/2", "b/1", failKey}
+	}
+	return []string{"a/1", "a/2", "b/1"}
+}
+
+type lazyWhere struct {
+	cfg  config
+	hist []op
+}
+
+func (l lazyWhere) String() string { return fmt.Sprintf("%v, history: %s", l.cfg, histString(l.hist)) }
 
 func snapsString(s []snap) string {
 	out := make([]string, len(s))
@@ -916,11 +957,103 @@ func sameSnaps(a, b []snap) bool {
 	return true
 }
 
+func sameCalls(a, b []call) bool {
+	if len(a) != len(b) {
+		return false
+	}
+	for i := range a {
+		if a[i] != b[i] {
+			return false
+		}
+	}
+	return true
+}
+
+var outcomeNames sync.Map
+
+func outcomeName(kind, r string, nd, nc int) string {
+	type k struct {
+		kind, r string
+		nd, nc  int
+	}
+	key := k{kind, r, nd, nc}
+	if v, ok := outcomeNames.Load(key); ok {
+		return v.(string)
+	}
+	s := fmt.Sprintf("%s:%s:deliveries=%d:hookcalls=%d", kind, r, nd, nc)
+	outcomeNames.Store(key, s)
+	return s
+}
+
+// Violations are collected and reported at the end: per signature the shortest
+// history (ties: first in enumeration order of its text) is the witness, so
+// that the result does not depend on which worker found it first.
+type found struct {
+	clause, site, disc, detail string
+	wit                        witness
+	count                      int
+}
+
+var (
+	foundMu sync.Mutex
+	founds  = map[string]*found{}
+)
+
+func better(a, b witness) bool {
+	if len(a.History) != len(b.History) {
+		return len(a.History) < len(b.History)
+	}
+	if a.Config.String() != b.Config.String() {
+		return configRank(a.Config) < configRank(b.Config)
+	}
+	return a.Text < b.Text
+}
+
+func configRank(c config) int {
+	r := map[string]int{"hashmap": 0, "bbolt": 2, "injected": 4}[c.Backend]
+	if c.ShadowDelete {
+		r++
+	}
+	return r
+}
+
+type violator struct{}
+
+func (violator) Violate(clause, site, disc string, detail string, wit witness) {
+	sig := clause + "|" + site + "|" + disc
+	foundMu.Lock()
+	defer foundMu.Unlock()
+	f, ok := founds[sig]
+	if !ok {
+		founds[sig] = &found{clause, site, disc, detail, wit, 1}
+		return
+	}
+	f.count++
+	if better(wit, f.wit) {
+		f.detail, f.wit = detail, wit
+	}
+}
+
+func flushViolations(c *vlib.Ctx) {
+	sigs := make([]string, 0, len(founds))
+	for s := range founds {
+		sigs = append(sigs, s)
+	}
+	sort.Strings(sigs)
+	for _, s := range sigs {
+		f := founds[s]
+		for i := 0; i < f.count; i++ {
+			c.Violate(f.clause, f.site, f.disc, f.detail, f.wit)
+		}
+	}
+}
+
 // runHistory replays hist on a fresh database and on a fresh model and checks every step.
-func runHistory(c *vlib.Ctx, cfg config, seedName string, hist []op, verbose bool) runResult {
+func runHistory(ctx *vlib.Ctx, cfg config, seedName string, hist []op, verbose bool) runResult {
+	var c violator
 	w, err := newWorld(cfg)
 	if err != nil {
-		c.EngineError("cannot set up database for %v: %v", cfg, err)
+		ctx.EngineError("cannot set up database for %v: %v", cfg, err)
 		return runResult{bad: true, outcome: "engine-error"}
 	}
 	defer w.close()
@@ -930,21 +1063,40 @@ func runHistory(c *vlib.Ctx, cfg config, seedName string, hist []op, verbose boo
 		h := append([]op{}, hist[:step+1]...)
 		return witness{cfg, seedName, h, histString(h)}
 	}
+	keys := keysOf(cfg)
+	after := w.raw(keys)
+	sharedSub, sharedHook := false, false
 	for step, o := range hist {
-		before := w.raw(allKeys)
+		before := after
 		w.calls = nil
 		var ob observed
 		p, stack := vlib.Catch(func() { ob = w.do(o) })
-		where := fmt.Sprintf("%v, history: %s", cfg, histString(hist[:step+1]))
+		where := lazyWhere{cfg, hist[:step+1]}
+		// Histories in which two subscriptions (two hooks) were created from one query
+		// object are a scenario family of their own: what goes wrong there is reported
+		// per clause under that family instead of per kind of operation.
+		sharedSub = sharedSub || o.Kind == "subq"
+		sharedHook = sharedHook || o.Kind == "hookq"
+		subSite, hookSite := o.Kind, o.Kind
+		if sharedSub {
+			subSite = "two-subscriptions-from-one-query-object"
+		}
+		if sharedHook {
+			hookSite = "two-hooks-from-one-query-object"
+		}
 		if p != nil {
-			c.Violate("no-panic", o.Kind, vlib.PanicSite(stack), fmt.Sprintf("%s: panic: %v", where, p), wit(step))
+			ps := o.Kind
+			if sharedSub && (strings.Contains(stack, "notifySubscribers") || o.Kind == "cancel") {
+				ps = subSite
+			}
+			c.Violate("no-panic", ps, vlib.PanicSite(stack), fmt.Sprintf("%v: panic: %v", where, p), wit(step))
 			if verbose {
 				fmt.Printf("step %d %v: PANIC %v\n", step, o, p)
 			}
 			return runResult{bad: true, outcome: o.Kind + ":panic"}
 		}
 		x := m.apply(o)
-		after := w.raw(allKeys)
+		after = w.raw(keys)
 		// feeds
 		nDeliv := 0
 		type feedObs struct {
@@ -960,7 +1112,7 @@ func runHistory(c *vlib.Ctx, cfg config, seedName string, hist []op, verbose boo
 			nDeliv += len(feeds[i].got)
 		}
 		if verbose {
-			fmt.Printf("step %d %v: err=%v\n", step, o, ob.err)
+			fmt.Printf("step %d %v: err=%v (reference: %s)\n", step, o, ob.err, x.res)
 			if o.Kind == "get" && ob.err == nil {
 				fmt.Printf("    returned %v\n", ob.get)
 			}
@@ -968,40 +1120,10 @@ func runHistory(c *vlib.Ctx, cfg config, seedName string, hist []op, verbose boo
 			for i := range w.subs {
 				fmt.Printf("    feed s%d: %s closed=%v (reference %s closed=%v)\n", i, snapsString(feeds[i].got), feeds[i].closed, snapsString(x.deliver[i]), x.closed[i])
 			}
-			fmt.Printf("    storage: %s\n", rawString(allKeys, after))
+			fmt.Printf("    storage: %s\n", rawString(after))
 		}
-		// 1. result of the operation
-		isHookErr := -1
-		for i, e := range hookErrs {
-			if ob.err != nil && errors.Is(ob.err, e) {
-				isHookErr = i
-			}
-		}
-		switch {
-		case x.res == "veto" && ob.err == nil:
-			c.Violate("veto-returns-hook-error", o.Kind, "ok-instead-of-veto", fmt.Sprintf("%s: h%d vetoes the operation, but it returned no error", where, x.vetoHook), wit(step))
-			res.bad = true
-		case x.res == "veto" && isHookErr != x.vetoHook:
-			c.Violate("veto-returns-hook-error", o.Kind, "other-error-instead-of-veto", fmt.Sprintf("%s: h%d vetoes the operation, but it returned %v", where, x.vetoHook, ob.err), wit(step))
-			res.bad = true
-		case x.res != "veto" && isHookErr >= 0:
-			c.Violate("veto-returns-hook-error", o.Kind, "veto-of-hook-that-must-not-run", fmt.Sprintf("%s: returned %v although no hook vetoes this operation", where, ob.err), wit(step))
-			res.bad = true
-		case x.res == "ok" && ob.err != nil, x.res == "err" && ob.err == nil:
-			if (o.Kind == "cancel" || o.Kind == "unhook" || o.Kind == "sub" || o.Kind == "subq" || o.Kind == "hook" || o.Kind == "hookq") && ob.err != nil {
-				c.Violate("subscribe-cancel-register-succeed", o.Kind, "error-instead-of-ok", fmt.Sprintf("%s: returned %v", where, ob.err), wit(step))
-				res.bad = true
-				break
-			}
-			// Outside this property (plain storage semantics, C02/C03): the reference store of this harness is out of step.
-			c.EngineError("reference store out of step with the implementation (not a C14 clause): %s: reference says %s, implementation returned err=%v", where, x.res, ob.err)
-			return runResult{bad: true, outcome: "engine-error"}
-		}
-		if res.bad {
-			return runResult{bad: true, outcome: o.Kind + ":result-mismatch"}
-		}
-		// 2. hook calls
-		if cs, xs := callsString(w.calls), callsString(x.calls); cs != xs {
+		// 1. hook calls
+		if !sameCalls(w.calls, x.calls) {
 			disc := "wrong-calls"
 			switch {
 			case len(w.calls) < len(x.calls):
@@ -1009,8 +1131,40 @@ func runHistory(c *vlib.Ctx, cfg config, seedName string, hist []op, verbose boo
 			case len(w.calls) > len(x.calls):
 				disc = "unexpected-call"
 			}
-			c.Violate("hook-calls-as-registered", o.Kind, disc, fmt.Sprintf("%s: hooks were called %s, reference %s", where, cs, xs), wit(step))
+			c.Violate("hook-calls-as-registered", hookSite, disc, fmt.Sprintf("%v: hooks were called %s, reference %s", where, callsString(w.calls), callsString(x.calls)), wit(step))
 			return runResult{bad: true, outcome: o.Kind + ":hook-mismatch"}
+		}
+		// 2. result of the operation
+		isHookErr := -1
+		if ob.err != nil {
+			for i, e := range hookErrs {
+				if errors.Is(ob.err, e) {
+					isHookErr = i
+				}
+			}
+		}
+		switch {
+		case x.res == "veto" && ob.err == nil:
+			c.Violate("veto-returns-hook-error", hookSite, "ok-instead-of-veto", fmt.Sprintf("%v: h%d vetoes the operation, but it returned no error", where, x.vetoHook), wit(step))
+			res.bad = true
+		case x.res == "veto" && isHookErr != x.vetoHook:
+			c.Violate("veto-returns-hook-error", hookSite, "other-error-instead-of-veto", fmt.Sprintf("%v: h%d vetoes the operation, but it returned %v", where, x.vetoHook, ob.err), wit(step))
+			res.bad = true
+		case x.res != "veto" && isHookErr >= 0:
+			c.Violate("veto-returns-hook-error", hookSite, "veto-without-vetoing-hook", fmt.Sprintf("%v: returned %v although no hook vetoes this operation", where, ob.err), wit(step))
+			res.bad = true
+		case x.res == "ok" && ob.err != nil, x.res == "err" && ob.err == nil:
+			if o.Kind != "get" && o.Kind != "put" && o.Kind != "del" {
+				c.Violate("subscribe-cancel-register-succeed", o.Kind, "error-instead-of-ok", fmt.Sprintf("%v: returned %v", where, ob.err), wit(step))
+				res.bad = true
+				break
+			}
+			// Outside this property (plain storage semantics, C02/C03): the reference store of this harness is out of step.
+			ctx.EngineError("reference store out of step with the implementation (not a C14 clause): %v: reference says %s, implementation returned err=%v", where, x.res, ob.err)
+			return runResult{bad: true, outcome: "engine-error"}
+		}
+		if res.bad {
+			return runResult{bad: true, outcome: o.Kind + ":result-mismatch"}
 		}
 		// 3. feeds
 		for i := range w.subs {
@@ -1026,7 +1180,7 @@ func runHistory(c *vlib.Ctx, cfg config, seedName string, hist []op, verbose boo
 				case len(f.got) > len(want):
 					disc = "duplicate-delivery"
 				}
-				c.Violate("feed-holds-exactly-the-matching-writes", o.Kind, disc, fmt.Sprintf("%s: feed of s%d received %s, reference %s", where, i, snapsString(f.got), snapsString(want)), wit(step))
+				c.Violate("feed-holds-exactly-the-matching-writes", subSite, disc, fmt.Sprintf("%v: feed of s%d received %s, reference %s", where, i, snapsString(f.got), snapsString(want)), wit(step))
 				res.bad = true
 			}
 			if f.closed != x.closed[i] {
@@ -1034,7 +1188,7 @@ func runHistory(c *vlib.Ctx, cfg config, seedName string, hist []op, verbose boo
 				if f.closed {
 					disc = "closed-without-cancel"
 				}
-				c.Violate("feed-closed-exactly-after-cancel", o.Kind, disc, fmt.Sprintf("%s: feed of s%d closed=%v, reference closed=%v", where, i, f.closed, x.closed[i]), wit(step))
+				c.Violate("feed-closed-exactly-after-cancel", subSite, disc, fmt.Sprintf("%v: feed of s%d closed=%v, reference closed=%v", where, i, f.closed, x.closed[i]), wit(step))
 				res.bad = true
 			}
 		}
@@ -1044,31 +1198,23 @@ func runHistory(c *vlib.Ctx, cfg config, seedName string, hist []op, verbose boo
 		// 4. result of a get
 		if o.Kind == "get" && x.res == "ok" && ob.get != x.get {
 			if x.replaced {
-				c.Violate("replacement-is-returned", o.Kind, "wrong-record", fmt.Sprintf("%s: returned %v, reference %v", where, ob.get, x.get), wit(step))
+				c.Violate("replacement-is-returned", o.Kind, "wrong-record", fmt.Sprintf("%v: returned %v, reference %v", where, ob.get, x.get), wit(step))
 				return runResult{bad: true, outcome: o.Kind + ":get-mismatch"}
 			}
-			c.EngineError("reference store out of step with the implementation (not a C14 clause): %s: get returned %v, reference %v", where, ob.get, x.get)
+			ctx.EngineError("reference store out of step with the implementation (not a C14 clause): %v: get returned %v, reference %v", where, ob.get, x.get)
 			return runResult{bad: true, outcome: "engine-error"}
 		}
 		// 5. storage
-		if x.res == "veto" {
-			if b, a := rawString(allKeys, before), rawString(allKeys, after); a != b {
-				c.Violate("veto-leaves-storage-unchanged", o.Kind, "storage-changed", fmt.Sprintf("%s: h%d vetoed, storage before %s after %s", where, x.vetoHook, b, a), wit(step))
-				return runResult{bad: true, outcome: o.Kind + ":veto-storage"}
-			}
+		if x.res == "veto" && !sameRaw(before, after) {
+			c.Violate("veto-leaves-storage-unchanged", o.Kind, "storage-changed", fmt.Sprintf("%v: h%d vetoed, storage before %s after %s", where, x.vetoHook, rawString(before), rawString(after)), wit(step))
+			return runResult{bad: true, outcome: o.Kind + ":veto-storage"}
 		}
-		var ms strings.Builder
-		for _, k := range allKeys {
-			if e, ok := m.store[k]; ok {
-				fmt.Fprintf(&ms, "%v;", e.snap(k))
-			}
-		}
-		if a := rawString(allKeys, after); a != ms.String() {
+		if mr := m.rawOf(keys); !sameRaw(after, mr) {
 			if x.replaced {
-				c.Violate("replacement-is-stored", o.Kind, "wrong-record", fmt.Sprintf("%s: storage holds %s, reference %s", where, a, ms.String()), wit(step))
+				c.Violate("replacement-is-stored", o.Kind, "wrong-record", fmt.Sprintf("%v: storage holds %s, reference %s", where, rawString(after), rawString(mr)), wit(step))
 				return runResult{bad: true, outcome: o.Kind + ":store-mismatch"}
 			}
-			c.EngineError("reference store out of step with the implementation (not a C14 clause): %s: storage holds %s, reference %s", where, a, ms.String())
+			ctx.EngineError("reference store out of step with the implementation (not a C14 clause): %v: storage holds %s, reference %s", where, rawString(after), rawString(mr))
 			return runResult{bad: true, outcome: "engine-error"}
 		}
 		if step == len(hist)-1 {
@@ -1076,15 +1222,14 @@ func runHistory(c *vlib.Ctx, cfg config, seedName string, hist []op, verbose boo
 			if o.Kind == "push" {
 				r = "pushed"
 			}
-			res.outcome = fmt.Sprintf("%s:%s:deliveries=%d:hookcalls=%d", o.Kind, r, nDeliv, len(w.calls))
+			res.outcome = outcomeName(o.Kind, r, nDeliv, len(w.calls))
 			res.nontriv = nDeliv > 0 || len(w.calls) > 0 || o.Kind == "cancel" || o.Kind == "unhook"
 		}
 	}
 	if len(hist) == 0 {
 		res.outcome = "initial"
 	}
-	res.key = m.canon() + "#" + w.private() + "#" + rawString(allKeys, w.raw(allKeys))
-	res.modelOnly = m
+	res.key = m.canon() + "#" + w.private() + "#" + rawString(after)
 	return res
 }
 
@@ -1143,6 +1288,7 @@ func plans(c *vlib.Ctx) []plan {
 
 func main() {
 	vlib.Main("C14", "model_checking", func(c *vlib.Ctx) {
+		debug.SetGCPercent(400)
 		if err := initSystem(); err != nil {
 			c.EngineError("cannot initialise the database system: %v", err)
 			return
@@ -1167,19 +1313,26 @@ func main() {
 			fmt.Printf("replaying on %v: %s\n", w.Config, histString(w.History))
 			r := runHistory(c, w.Config, w.Seed, w.History, true)
 			fmt.Printf("replayed: outcome=%s violation=%v\n", r.outcome, r.bad)
+			flushViolations(c)
 			c.Add(1, int64(len(w.History)), 1)
 			return
 		}
 
-		budget := vlib.Pick(c, 150*time.Second, 25*time.Minute)
-		c.SetBudget(budget)
+		if !strings.Contains(strings.Join(os.Args, " "), "-budget") {
+			c.SetBudget(vlib.Pick(c, 150*time.Second, 25*time.Minute))
+		}
 		pls := plans(c)
+		only := os.Getenv("VERIF_C14_ONLY") // development aid: restrict to one backend
 		for pi, pl := range pls {
+			if only != "" && pl.cfg.Backend != only {
+				continue
+			}
 			explore(c, pi, pl)
 			if c.Expired() {
 				break
 			}
 		}
+		flushViolations(c)
 	})
 }
 
